@@ -555,6 +555,113 @@ def frame_source(df):
 PINNED_SOURCE = "[.first, .rest]"
 
 
+def frame_streams(df):
+    """Does the constructor read a record when the caller's iterable hands it over (`true`), or does it run the iterable
+    to its end first and read the records afterwards (`false`: `list(dicts)` / `list(dictionaries)` / `tuple(…)` / `sorted(…)`
+    before or inside the source of the row comprehension)?  Only the unguarded form and the guards `not isinstance(dictionaries,
+    (list, tuple))` / `dicts is dictionaries` are read as "drains a lazy producer"; other guards are not understood."""
+    fn = df.func("__init__", "DataFrame")
+    top = [st for st in fn.body if isinstance(st, ast.If) and ast.unparse(st.test) == "dictionaries is not None"]
+    if not top:
+        raise Shape("if dictionaries is not None")
+
+    def drains(node):
+        for sub in ast.walk(node):
+            if (isinstance(sub, ast.Call) and ast.unparse(sub.func) in ("list", "tuple", "sorted", "deque", "collections.deque")
+                    and len(sub.args) == 1 and any(isinstance(x, ast.Name) and x.id in ("dicts", "dictionaries") for x in ast.walk(sub.args[0]))):
+                return True
+        return False
+
+    for st in top[0].body:
+        if isinstance(st, ast.Assign) and len(st.targets) == 1 and ast.unparse(st.targets[0]) == "self._rows":
+            if not (isinstance(st.value, ast.ListComp) and len(st.value.generators) == 1):
+                raise Shape("rows comprehension")
+            return "false" if drains(st.value.generators[0].iter) else "true"
+        if isinstance(st, ast.If):
+            if drains(st):
+                t = ast.unparse(st.test)
+                if t in ("not isinstance(dictionaries, (list, tuple))", "not isinstance(dictionaries, list)", "dicts is dictionaries",
+                         "iter(dictionaries) is dictionaries") and not any(drains(x) for x in st.orelse):
+                    return "false"
+                raise Shape("records collected under %s" % t[:40])
+        elif drains(st):
+            return "false"
+    raise Shape("rows comprehension")
+
+
+def _kind_test(node, var):
+    """A test on the KIND of the object `var` -> Lean Bool term over isDict / isExact / isSeq / isMutable / isMapping."""
+    if isinstance(node, ast.BoolOp):
+        op = " && " if isinstance(node.op, ast.And) else " || "
+        return "(" + op.join(_kind_test(v, var) for v in node.values) + ")"
+    if isinstance(node, ast.UnaryOp) and isinstance(node.op, ast.Not):
+        return "(!%s)" % _kind_test(node.operand, var)
+    u = ast.unparse(node)
+    if u in ("type(%s) is not dict" % var, "type(%s) != dict" % var):
+        return "(!isExact)"
+    if u in ("type(%s) is dict" % var, "type(%s) == dict" % var):
+        return "isExact"
+    if isinstance(node, ast.Call) and ast.unparse(node.func) == "isinstance" and len(node.args) == 2 and ast.unparse(node.args[0]) == var:
+        cl = node.args[1]
+        names = [ast.unparse(e) for e in cl.elts] if isinstance(cl, ast.Tuple) else [ast.unparse(cl)]
+        atom = {"dict": "isDict", "tuple": "isSeq", "list": "isSeq", "Mapping": "isMapping", "collections.abc.Mapping": "isMapping",
+                "MutableMapping": "isMutable", "collections.abc.MutableMapping": "isMutable", "typing.MutableMapping": "isMutable"}
+        if names and all(n in atom for n in names):
+            return "(" + " || ".join(dict.fromkeys(atom[n] for n in names)) + ")"
+    raise Shape("test on the kind of record: %s" % u[:50])
+
+
+def row_new_mapping(row):
+    """`Row.__new__`: the statement in front of the dictionary guard that turns a mapping which is not a dict into one
+    (`if <test>: data = dict(data)`); `false` when there is none."""
+    fn = row.func("__new__", "Row")
+    for st in fn.body:
+        if isinstance(st, ast.If):
+            if any(isinstance(sub, ast.Call) and ast.unparse(sub.func) == "extract_dict_columns" for sub in ast.walk(st)):
+                # the dictionary branch is reached: nothing in front of it.  A second branch of the same statement that
+                # also reaches the extractor or copies into a dict (`elif isinstance(data, Mapping): …`) is another way of
+                # writing the conversion, which this reader does not follow.
+                other = st.orelse if ast.unparse(st.test) == "isinstance(data, dict)" else st.body
+                if any(isinstance(sub, ast.Call) and ast.unparse(sub.func) in ("extract_dict_columns", "dict") for x in other for sub in ast.walk(x)):
+                    raise Shape("a second branch of the dictionary guard converts")
+                return "false"
+            body = [ast.unparse(x) for x in st.body if not isinstance(x, ast.Expr)]
+            if body == ["data = dict(data)"] and not st.orelse:
+                return _kind_test(st.test, "data")
+            if any("data" == ast.unparse(t) for x in ast.walk(st) if isinstance(x, ast.Assign) for t in x.targets):
+                raise Shape("statement in front of the dictionary guard")
+        elif isinstance(st, ast.Assign) and any(ast.unparse(t) == "data" for t in st.targets):
+            raise Shape("statement in front of the dictionary guard")
+    return "false"
+
+
+def append_copy(df):
+    """`DataFrame.append`: the statement that copies a record which is not an exact dict (`if <test>: entry = dict(entry)`), its
+    test as a function of the record's kind, and where it stands: at the top of the method (every frame) or inside the
+    `isinstance(self._schema, RelationSchema)` branch (schema-bound frames only).  [test, on names-only frames, on bound frames]"""
+    fn = df.func("append", "DataFrame")
+
+    def copy_in(stmts):
+        for st in stmts:
+            if isinstance(st, ast.If) and not st.orelse and [ast.unparse(x) for x in st.body if not isinstance(x, ast.Expr)] == ["entry = dict(entry)"]:
+                return st
+        return None
+
+    for st in fn.body:
+        if isinstance(st, ast.Assign) and isinstance(st.value, ast.Call) and ast.unparse(st.value.func) == "self._row_factory":
+            break
+        c = copy_in([st])
+        if c is not None:
+            return [_kind_test(c.test, "entry"), "true", "true"]
+        if isinstance(st, ast.If) and ast.unparse(st.test) == "isinstance(self._schema, RelationSchema)":
+            c = copy_in(st.body)
+            if c is not None:
+                return [_kind_test(c.test, "entry"), "false", "true"]
+        if any(isinstance(x, ast.Assign) and any(ast.unparse(t) == "entry" for t in x.targets) for x in ast.walk(st)):
+            raise Shape("entry reassigned: %s" % ast.unparse(st)[:40])
+    return ["false", "false", "false"]
+
+
 def record_guard(row):
     """`Row.as_bytes`: the record-size guard `if <test>: raise DataError(…)` with the module's constants, and what
     `record_size` measures."""
@@ -872,6 +979,9 @@ PINNED = {
     "c02.dataframe.init_dictionaries": PINNED_FRAME,
     "c02.dataframe.append": ["true", "true", "true"],
     "c02.dataframe.init_source": PINNED_SOURCE,
+    "c02.dataframe.init_streams": "true",
+    "c02.row.new_mapping": "((!(isDict || isSeq)) && (isMapping))",
+    "c02.dataframe.append_copy": ["((isMutable) && (!isExact))", "true", "true"],
     "c02.row.record_guard": PINNED_GUARD,
     "c02.dataframe.append_sizes": "true",
     "c02.schema.routes": PINNED_SCHEMA,
@@ -893,6 +1003,9 @@ def generate(o):
     fr = o.item("c02.dataframe.init_dictionaries", lambda: frame_init(df), PINNED["c02.dataframe.init_dictionaries"])
     ap = o.item("c02.dataframe.append", lambda: frame_append(df), PINNED["c02.dataframe.append"])
     sg = o.item("c02.dataframe.init_source", lambda: frame_source(df), PINNED["c02.dataframe.init_source"])
+    fs = o.item("c02.dataframe.init_streams", lambda: frame_streams(df), PINNED["c02.dataframe.init_streams"])
+    nm = o.item("c02.row.new_mapping", lambda: row_new_mapping(row), PINNED["c02.row.new_mapping"])
+    ac = o.item("c02.dataframe.append_copy", lambda: append_copy(df), PINNED["c02.dataframe.append_copy"])
     rg = o.item("c02.row.record_guard", lambda: record_guard(row), PINNED["c02.row.record_guard"])
     az = o.item("c02.dataframe.append_sizes", lambda: append_sizes(df), PINNED["c02.dataframe.append_sizes"])
     sig = {"as_map": "List (String × α)", "as_dict": "List (String × α)", "values": "List α", "keys": "List String",
@@ -981,6 +1094,18 @@ def generate(o):
     t += "is its own iterator\" (`dicts is dictionaries`): `first` = the record `next(dicts)` took off, `rest` = what the iterator\n"
     t += "`dicts` still has, `again` = a NEW iteration of the caller's object -/\n"
     t += "def frameSourceSegs (selfIter : Bool) : List Seg := %s\n" % sg
+    t += "/-- `true`: a record is read when the caller's iterable hands it over (the rows are built while the iterable is walked);\n"
+    t += "`false`: the iterable is run to its end first (`list(dicts)`) and the records are read afterwards -/\n"
+    t += "def frameSourceStreams : Bool := %s\n" % fs
+    t += "\n/-! ### the KIND of object a record is held in (dict, subclass of dict, other mutable mapping, read-only mapping) -/\n"
+    t += "/-- `Row.__new__`: `if not isinstance(data, (dict, tuple, list)) and isinstance(data, Mapping): data = dict(data)` in front of\n"
+    t += "the dictionary guard -/\n"
+    t += "def newConvertsMapping (isDict isExact isSeq isMutable isMapping : Bool) : Bool := %s\n" % nm
+    t += "/-- `DataFrame.append`: the test of `if …: entry = dict(entry)` -/\n"
+    t += "def appendCopiesKind (isDict isExact isSeq isMutable isMapping : Bool) : Bool := %s\n" % ac[0]
+    t += "/-- … and whether that statement is reached on a frame whose schema is a list of names / a RelationSchema -/\n"
+    t += "def appendCopyOnNames : Bool := %s\n" % ac[1]
+    t += "def appendCopyOnBound : Bool := %s\n" % ac[2]
     t += "\n/-! ### row.py — the record-size guard of `as_bytes`, reached from `append` through `nbytes` -/\n"
     t += "def headerSize : Int := %s\n" % rg[0]
     t += "def maximumRecordSize : Int := %s\n" % rg[1]
